@@ -92,6 +92,22 @@ for cplx in (False, True):
 sys.exit(1 if bad else 0)
 '''
 
+ALIAS_REPRO = r'''
+# expm_krylov(Afunc, dt, v): `w = Afunc(V[j])` followed by the in-place `w -= alpha[j]*V[j] + ...`.  If Afunc returns its argument
+# (or a view of it) -- the identity, e.g. an effective Hamiltonian that is a multiple of 1 implemented without a copy -- the
+# in-place update overwrites the Krylov basis row V[j] and the routine silently returns the ZERO vector instead of exp(dt) v.
+# exit 1 = wrong result for an aliasing identity operator (the copying identity is the control).
+import sys, renormalizer, numpy as np
+from renormalizer.lib import expm_krylov
+v = np.array([1.0, 2.0, 3.0, -1.0]); bad = 0
+for name, f in (("lambda x: x.copy()", lambda x: x.copy()), ("lambda x: x", lambda x: x), ("lambda x: x[:]", lambda x: x[:]), ("lambda x: x.reshape(-1)", lambda x: x.reshape(-1))):
+    for dt in (0.5, -0.5j):
+        res, j = expm_krylov(f, dt, v.astype(complex))
+        err = np.linalg.norm(res - np.exp(dt) * v) / np.linalg.norm(v)
+        print("%-26s dt=%r  relative error %.3g" % (name, dt, err)); bad += err > 1e-4
+sys.exit(1 if bad else 0)
+'''
+
 ABSTOL_REPRO = r'''
 # The convergence test of expm_krylov is allclose(res, new_res) with NumPy's default ABSOLUTE tolerance 1e-8 applied to the
 # norm-scaled result: for a start vector of norm 1e-9 every pair of iterates is "close", the loop returns at the first
@@ -610,6 +626,15 @@ def run(ctx):
                       {"failing": len(k_inp), "smallest": min(k_inp, key=lambda b: b["case"]["n"]), "repro_output": out_i[-800:]}, found=True,
                       repro=INPUT_REPRO if rc_i != 0 else GENERIC_REPRO % (json.dumps({"seed": seed, "cases": [min(k_inp, key=lambda b: b["case"]["n"])["case"]]}), os.path.join(impl_script, "c18_krylov.py"),
                                                                          "r['error'] or not r.get('input_unchanged') or not isinstance(r.get('second_call_err'), float) or r['second_call_err'] > %g" % KRYLOV_TOL))
+    # fixed probe: operators whose callable returns its argument or a view of it
+    rc_al, out_al = common.sh([common.IMPL_PY, "-c", ALIAS_REPRO], env=common.impl_env(), cwd="/", timeout=300)
+    ctx.notes.append({"aliasing-operator probe (A = identity returning its argument / a view)": out_al[-700:]})
+    if rc_al != 0:
+        ctx.violation("krylov-afunc-aliases-input",
+                      "the Krylov exponential returns the zero vector when the operator callable returns its argument or a view of it (the in-place `w -= ...` overwrites the Krylov basis row)",
+                      {"probe": "A = identity as `lambda x: x`, `lambda x: x[:]`, `lambda x: x.reshape(-1)`; dt = 0.5 and -0.5j; control `lambda x: x.copy()`", "output": out_al[-800:],
+                       "minimal_patch": "w = w - (alpha[j]*V[j] + (beta[j-1]*V[j-1] if j > 0 else 0))   instead of the in-place  w -= ..."},
+                      found=True, repro=ALIAS_REPRO)
     # fixed probe: accuracy relative to |v| for a small-norm start vector (absolute tolerance in the convergence test)
     rc_a, out_a = common.sh([common.IMPL_PY, "-c", ABSTOL_REPRO], env=common.impl_env(), cwd="/", timeout=300)
     ctx.notes.append({"small-norm probe (|v| = 1e-9, ||A dt|| = 20)": out_a[-400:]})
